@@ -209,11 +209,38 @@ CLAIMED.update({
     ),
 })
 
+GAME = ("abstract evaluation in the term domain on explicit small games (2-4 teams, every player and rank value its own abstract object, one assumed weak ordering of the ranks per run; "
+        "polynomial normal form with denominators cleared)")
+
+CLAIMED.update({
+    "C12": (
+        GAME + ": the term each prediction returns is compared with the closed form spelled out in the statement",
+        "other",
+        "Narrow claim. On explicit games of 2, 3 and 4 teams with one or two players per team, predict_win, predict_rank and predict_draw return, as functions of the inputs, exactly the closed forms "
+        "written in the statement (which count multiplies beta^2, the normalisers n(n-1)/2, n(n-1) and 1, the draw margin sqrt(N) beta Phi^-1((1+1/N)/2) and its sign), for all five models: equality of "
+        "polynomial normal forms with Phi(z) + Phi(-z) = 1 and each abs() read as either sign. Nothing is executed; the 1e-9 numeric agreement is not decided.",
+        "Not decided: floating-point rounding and the accuracy of Phi / Phi^-1 (C17), games with more than four teams or more than two players per team, two-team predict_rank / predict_draw with "
+        "several players per team (the statement does not fix the pairwise form there). A term built from functions the comparison does not know ends undecided, not violated.",
+        "DESIGN.md §10.10 C12",
+    ),
+})
+
+for _pid, _extra in {
+    "C02": "; result positions on explicit small games (R2.9)",
+    "C03": "; explicit small games: omitted ranks == increasing ranks, scores == ranks (R3.5)",
+    "C04": "; explicit small games: the stored terms are unchanged under exchanges of teams / players (R4.6)",
+    "C07": "; explicit small games: the statement's sum is the zero rational function (R7.11)",
+    "C09": "; explicit small games: the returned terms sum to 1, permute with the teams, coincide for identical teams (R9.9)",
+    "C10": "; explicit small games: the returned term is unchanged under exchanges of teams / players (R10.5)",
+    "C11": "; explicit small games: probabilities in input order, probabilities + predict_draw == 1 up to abs signs (R11.8)",
+    "C19": "; explicit small games: Bradley-Terry part == full on two teams (R19.5), predictions agree across models (R19.6)",
+}.items():
+    _t = CLAIMED[_pid]
+    CLAIMED[_pid] = (_t[0] + _extra, _t[1], _t[2], _t[3] + " Explicit-game rules: " + GAME + "; finite in the number of teams (2-4) and players per team (1-2), exhaustive in the weak orderings of the ranks.", _t[4])
+
 NOT_APPLICABLE = {
     "C01": "numeric equality (1e-9) with published closed forms over a continuous input box: no sound static "
     "argument in reach; its structural necessary conditions are decided under C02/C03/C05/C06/C07/C16/C19",
-    "C12": "1e-9 agreement with an independent high-precision evaluation of closed forms: run-time numeric "
-    "quantity; structural parts decided under C09/C11/C16/C17/C19",
 }
 
 PENDING = "static check designed (DESIGN.md §5) but not built yet in this tree; not claimed until it exists"
